@@ -36,12 +36,12 @@ def exHttp : Bytes := [104, 116, 116, 112, 58, 47, 47, 101, 120, 97, 109, 112, 1
 /-- "mailto:" -/
 def exMailtoEmpty : Bytes := [109, 97, 105, 108, 116, 111, 58]
 /-- "https://[::1]/x" -/
-def exV6 : Bytes := [104, 116, 116, 112, 115, 58, 47, 47, 91, 58, 58, 49, 93, 47, 120]
+def exIPv6Host : Bytes := [104, 116, 116, 112, 115, 58, 47, 47, 91, 58, 58, 49, 93, 47, 120]
 /-- "http://{host}" -/
 def exBrace : Bytes := [104, 116, 116, 112, 58, 47, 47, 123, 104, 111, 115, 116, 125]
 example : Gen.IsValidURL exHttp = .ok true := by rw [c12]; exact congrArg _ (by decide)
 example : Gen.IsValidURL exMailtoEmpty = .ok false := by rw [c12]; exact congrArg _ (by decide)
-example : Gen.IsValidURL exV6 = .ok true := by rw [c12]; exact congrArg _ (by decide)
+example : Gen.IsValidURL exIPv6Host = .ok true := by rw [c12]; exact congrArg _ (by decide)
 example : Gen.IsValidURL exBrace = .ok false := by rw [c12]; exact congrArg _ (by decide)
 
 end Props
